@@ -24,7 +24,7 @@ let trap_name = function
   | TrapPopEmpty -> "PopEmpty" | TrapPos -> "Pos" | TrapIndex -> "Index" | TrapNoSpace -> "NoSpace"
   | TrapInvalidKey -> "InvalidKey" | TrapListEmpty -> "ListEmpty" | TrapNilNode -> "NilNode"
   | TrapCapOverflow -> "CapOverflow" | TrapOverflow -> "Overflow" | TrapCompact -> "Compact"
-  | TrapMem -> "Mem" | TrapFuel -> "Fuel"
+  | TrapMem -> "Mem" | TrapFuel -> "Fuel" | TrapUnpack -> "Unpack"
 
 let dumpmode = ref 0
 let hm_mod = 2147483647
@@ -57,7 +57,7 @@ let khash () = if !kind = 5 then tok_hash_weak else tok_hash
 let alloc_limit = ref 0
 let alloc_ok (n : nat) : bool = !alloc_limit = 0 || int_of_nat n < !alloc_limit
 
-let cop_of op a b : z cop option =
+let cop_of op a b c : z cop option =
   let za = z_of_i64 a and zb = z_of_i64 b in
   match op with
   | 1 -> Some (OPush za) | 2 -> Some OPop | 3 -> Some (OInsert (nat_of_i64 a, zb))
@@ -65,9 +65,17 @@ let cop_of op a b : z cop option =
   | 6 -> Some (ORemoveIf (tok_pred za zb)) | 7 -> Some (OResize (nat_of_i64 a))
   | 8 -> Some (OReserve (nat_of_i64 a)) | 9 -> Some OClear | 10 -> Some OCopy
   | 11 -> Some (OAt (nat_of_i64 a)) | 12 -> Some (OAssign (nat_of_i64 a, zb))
+  | 13 -> Some ODestroy
+  | 14 -> Some (OConvert (List.init (max 0 (Int64.to_int a)) (fun i -> z_of_i64 (Int64.add b (Int64.mul (Int64.of_int i) c)))))
+  | 15 -> (match Int64.to_int a with
+      | 0 -> Some (OUnpack (nat_of_int 1, nat_of_int 1))
+      | 1 -> Some (OUnpack (nat_of_int 1, nat_of_int 3))
+      | _ -> Some (OUnpack (nat_of_int 2, nat_of_int 3)))
   | _ -> None
 
-let cret_s = function RUnit -> "-" | RVal x -> dec_of_z x | RBool b -> if b then "1" else "0"
+let cret_s = function
+  | RUnit -> "-" | RVal x -> dec_of_z x | RBool b -> if b then "1" else "0"
+  | RVals l -> String.concat "," (List.map dec_of_z l)
 
 let vec_line () = Printf.sprintf " %s %s :%s" (sn (vec_len !vecs)) (sn (vec_cap !vecs)) (toks (vec_contents !vecs))
 let vspec_line () = Printf.sprintf " %d :%s" (List.length !vspec) (toks !vspec)
@@ -134,7 +142,7 @@ let () =
           end else
           match !kind with
           | 1 | 10 ->
-            (match cop_of op a b with
+            (match cop_of op a b c with
              | None -> Some "?"
              | Some o ->
                let m = (match vec_step z0 tok_eqb o !vecs with
@@ -145,7 +153,7 @@ let () =
                    | Trap t -> "TRAP " ^ trap_name t) in
                Some (m ^ " || " ^ s))
           | 2 ->
-            (match cop_of op a b with
+            (match cop_of op a b c with
              | None -> Some "?"
              | Some o ->
                let m = (match seq_step z0 tok_eqb o !seqs with
@@ -160,7 +168,7 @@ let () =
             let o = (match op with
                 | 1 -> Some (LPushFront za) | 2 -> Some (LPushBack za) | 3 -> Some LPopFront | 4 -> Some LPopBack
                 | 5 -> Some (LInsertBefore (za, zb)) | 6 -> Some (LEraseValue za) | 7 -> Some (LFind za)
-                | 8 -> Some LClear | 9 -> Some LEmpty | 10 -> Some LEraseNil | _ -> None) in
+                | 8 -> Some LClear | 9 -> Some LEmpty | 10 -> Some LEraseNil | 11 -> Some LDestroy | _ -> None) in
             (match o with
              | None -> Some "?"
              | Some o ->
@@ -211,6 +219,7 @@ let () =
                   | 9 -> Some (HReserve (nat_of_i64 a)) | 10 -> Some (HRehash (nat_of_i64 a))
                   | 11 -> Some (HIterErase (fun _ v -> tok_pred za zb v))
                   | 15 -> Some (HMapVals (fun v -> z_of_i64 (Int64.add (Int64.of_string (dec_of_z v)) a)))
+                  | 17 -> Some HDestroy
                   | _ -> None) in
               match o with
               | None -> Some "?"
@@ -249,6 +258,7 @@ let () =
                   (match sb_prepare (nat_of_int ia) !sbs with
                    | Ok (_, sp) -> pre := sn sp | Trap _ -> ());
                   Some (BPrepare (nat_of_int ia))
+                | 10 -> pre := "-"; Some BDestroy
                 | _ -> None) in
             (match o with
              | None -> Some "?"
@@ -289,6 +299,7 @@ let () =
                   (match sb_prepare_a alloc_ok (nat_of_int ia) !sbs with
                    | Ok (_, spo) -> pre := (match spo with Some n -> sn n | None -> "0") | Trap _ -> ());
                   Some (BPrepare (nat_of_int ia))
+                | 10 -> pre := "-"; Some BDestroy
                 | _ -> None) in
             (match o with
              | None -> Some "?"
